@@ -168,7 +168,8 @@ def build_model(pid, force=False):
 
 def build_harness(cmd):
     """go build of /repo/cmd/<cmd> (overlay) from the current working tree of /repo."""
-    out = os.path.join(BUILD, "h_" + cmd)
+    alt = "" if REPO == "/repo" else "_" + hashlib.sha1(REPO.encode()).hexdigest()[:8]
+    out = os.path.join(BUILD, "h_" + cmd + alt)
     ovj = os.path.join(BUILD, "overlay_%s.json" % hashlib.sha1(REPO.encode()).hexdigest()[:8])
     with Lock("overlay"):
         sh([sys.executable, os.path.join(ROOT, "harness", "mkoverlay.py"), ovj], env=dict(os.environ, VERIF_REPO=REPO))
@@ -257,7 +258,8 @@ def main(argv=None):
         return mod.main(a)
     t0 = time.time()
     os.makedirs(BUILD, exist_ok=True)
-    workdir = os.path.join(BUILD, "run_" + pid)
+    alt = "" if REPO == "/repo" else "_" + hashlib.sha1(REPO.encode()).hexdigest()[:8]
+    workdir = os.path.join(BUILD, "run_" + pid + alt)
     shutil.rmtree(workdir, ignore_errors=True)
     os.makedirs(workdir)
     violations = []      # (tag, replay_path, suffix)
@@ -403,8 +405,10 @@ def main(argv=None):
         wall_s=round(wall, 2), violations=len(violations),
     )
     if not a.replay:
-        os.makedirs(os.path.join(ROOT, "evidence"), exist_ok=True)
-        json.dump(ev, open(os.path.join(ROOT, "evidence", pid + ".json"), "w"), indent=1)
+        # evidence is only ever written for /repo itself; runs against a scratch tree (VERIF_REPO) keep theirs apart
+        evdir = os.path.join(ROOT, "evidence") if REPO == "/repo" else os.path.join(BUILD, "evidence" + alt)
+        os.makedirs(evdir, exist_ok=True)
+        json.dump(ev, open(os.path.join(evdir, pid + ".json"), "w"), indent=1)
     for l in out_lines:
         print(l)
     print("%s: theorems %d/%d, cases %d (distinct non-trivial %d), disagreements %d (known %d), %.1fs" % (
